@@ -186,6 +186,7 @@ struct Sim {
     thunks_in_op: Vec<u64>,
     stack_base: usize,
     run_started: Option<std::time::Instant>,
+    guard_calls: u64,
     trace_on: bool,
     live: bool,
     trace: Vec<TraceEvent>,
@@ -216,6 +217,7 @@ impl Sim {
             thunks_in_op: vec![],
             stack_base: 0,
             run_started: None,
+            guard_calls: 0,
             trace_on: false,
             live: std::env::var("QSIM_LIVE_TRACE").is_ok(),
             trace: vec![],
@@ -314,7 +316,13 @@ fn probe(site: u32, arg: u64) {
         // Backstop in wall time, far above anything the unchanged tree needs (its slowest run takes
         // a few seconds): a change that makes the engine call this probe much more rarely would
         // otherwise let one run go on for minutes. Such a run ends as inconclusive.
-        let too_long = SIM.with(|s| s.borrow().run_started.map(|t| t.elapsed().as_secs() >= 40).unwrap_or(false));
+        let too_long = SIM.with(|s| {
+            let mut s = s.borrow_mut();
+            s.guard_calls += 1;
+            let slow = s.run_started.map(|t| t.elapsed().as_secs() >= 40).unwrap_or(false);
+            // and in memory (the engine never frees a proof tree): checked every 256th call
+            slow || (s.guard_calls % 256 == 0 && resident_kib() > 4_000_000)
+        });
         if too_long {
             std::panic::panic_any(AbortDepth);
         }
